@@ -29,6 +29,7 @@ def run(ctx):
     ar.fresh_part_rule(ctx, 'R9.5')
     ar.index_normalisation_rule(ctx, 'R9.6')
     r98(ctx)
+    ar.mode_params_rule(ctx, 'R9.9')
     r96(ctx, api)
     r97(ctx, wr)
     from . import callsigs as _cs
